@@ -41,7 +41,7 @@ func WithInitialStock(inventory ...*traits.Consumable_Stock) resource.Option {
 // WithConsumablesOption configures the consumables resource of the model.
 func WithConsumablesOption(opts ...resource.Option) resource.Option {
 	return modelOptionFunc(func(args *modelArgs) {
-		args.inventoryOptions = append(args.inventoryOptions, opts...)
+		args.consumableOptions = append(args.consumableOptions, opts...)
 	})
 }
 
